@@ -456,7 +456,10 @@ def main(tier, seed):
                     pm = {b: Fraction(e) for b, e in parsed[1].items() if Fraction(e) != 0}
                     if pd != {b: e for b, e in want_d.items() if e != 0} or pm != want_m:
                         violations.append({"what": f"the label {part!r} printed inside {label!r} for {shown} denotes a unit of different magnitude/dimension "
-                                                   f"than the common unit", "class": "foreign-label-common", "rec": dict(base, kind="foreign-common", part=part)})
+                                                   f"than the common unit", "class": "foreign-label-common",
+                                           "rec": dict(base, kind="foreign-common", part=part,
+                                                       shared_symbol=sorted({A.atoms[k]["label"] for t in items for k in uexpr.atoms_of(t)
+                                                                             if A.atoms[k].get("label") in ambiguous}))})
     # --- IToA / UIToA on boundary and random 64-bit arguments
     uargs = sorted({0, 1, 9, 10, 11, 99, 100, 2 ** 31, 2 ** 32 - 1, 2 ** 63 - 1, 2 ** 63, 2 ** 64 - 1, 10 ** 19, 10 ** 18 - 1} |
                    {rng.randrange(0, 2 ** 64) for _ in range(60)} | {10 ** k for k in range(20)} | {10 ** k - 1 for k in range(1, 20)})
